@@ -1,6 +1,7 @@
 package p03
 
 import (
+	"bytes"
 	"fmt"
 	"os"
 	"sort"
@@ -180,6 +181,7 @@ type chainRun struct {
 	atxs   map[int]aTx
 	iscb   map[int]bool
 	views  []savedView
+	raw    map[int][]byte // serialized form of every block handed to the chain, to check it is left alone
 }
 
 type savedView struct {
@@ -375,11 +377,20 @@ func (r *chainRun) observe() string {
 	return fmt.Sprintf("u=%s;j=%s;n=%d", strings.Join(u, ","), strings.Join(j, "/"), r.in.chain.BestSnapshot().TotalTxns)
 }
 
+func rawBlock(blk *btcutil.Block) []byte {
+	var buf bytes.Buffer
+	if err := blk.MsgBlock().Serialize(&buf); err != nil {
+		return nil
+	}
+	return buf.Bytes()
+}
+
 func execChain(c cfg, ops []string, slot int) string {
 	r := &chainRun{b: newBuilder(c), known: map[aOp]bool{}, blocks: map[int]*btcutil.Block{},
-		txs: map[int]*btcutil.Tx{}, atxs: map[int]aTx{}, iscb: map[int]bool{}}
+		txs: map[int]*btcutil.Tx{}, atxs: map[int]aTx{}, iscb: map[int]bool{}, raw: map[int][]byte{}}
 	r.in = newInst(r.b.params, c.cache, slot)
 	defer r.in.close()
+	c0 := c
 	var out []string
 	for _, op := range ops {
 		switch op[0] {
@@ -390,6 +401,7 @@ func execChain(c cfg, ops []string, slot int) string {
 				return "bad-line"
 			}
 			r.blocks[a.id] = blk
+			r.raw[a.id] = rawBlock(blk)
 			for ti, t := range a.txs {
 				if _, ok := r.txs[t.id]; !ok {
 					r.txs[t.id] = blk.Transactions()[ti]
@@ -549,6 +561,20 @@ func execChain(c cfg, ops []string, slot int) string {
 			out = append(out, fmt.Sprintf("a=%s;inv=%d;t=%d", a, inv, r.in.chain.BestSnapshot().TotalTxns))
 		default:
 			return "bad-op"
+		}
+	}
+	// inputs are values: the blocks and the parameters handed in (and reused by every later call)
+	// must be exactly what they were
+	p0 := makeParams(c0)
+	if r.b.params.CoinbaseMaturity != p0.CoinbaseMaturity || r.b.params.BIP0034Height != p0.BIP0034Height ||
+		r.b.params.PowLimitBits != p0.PowLimitBits || *r.b.params.GenesisHash != *p0.GenesisHash ||
+		r.b.params.SubsidyReductionInterval != p0.SubsidyReductionInterval {
+		out = append(out, "params-mutated")
+	}
+	for id, blk := range r.blocks {
+		if string(rawBlock(blk)) != string(r.raw[id]) || *blk.Hash() != r.b.blkHash[id] {
+			out = append(out, "block-mutated")
+			break
 		}
 	}
 	return strings.Join(out, "|")
